@@ -538,7 +538,12 @@ pub fn run_world<C: Check>(c: &C, prop: &str, tier: Tier, seed: u64, out_dir: &s
         } else {
             // beyond a dozen distinct signatures per world only the tail after the violating step is cut
             let cut = (v.step + 1).min(steps.len());
-            (steps[..cut].to_vec(), v)
+            let cand = steps[..cut].to_vec();
+            let mut tmp = Stats::default();
+            match guarded(c, &cfg, &cand, &mut tmp) {
+                Err(v2) if v2.check == v.check => (cand, v2),
+                _ => (steps, v),
+            }
         };
         shrunk += 1;
         let path = format!("{}/replays/{}-{}-{}-{}-{}.json", out_dir, prop, c.id(), seed, run, sig.replace('/', "_").replace('.', "_").replace(' ', "_"));
